@@ -54,7 +54,7 @@ def run_image(chk, tier, seed, rnd, prop):
         raise C.InfraError("GenImage gave %d scripts / %d boundary scripts" % (len(scripts), len(bound[0]) if bound else 0))
     bs = sorted(bound[0], key=lambda x: json.dumps(x, sort_keys=True))
     if tier == "quick":
-        bs = rnd.sample(bs, 160) + [b for b in bs if len(b) in (4, 6)]
+        bs = rnd.sample(bs, 160) + [b for b in bs if len(b) in (4, 6, 12)]
     allscripts = scripts + bs
     cases, meta = [], {}
     for i, ops in enumerate(allscripts):
